@@ -202,7 +202,8 @@ pub fn origin_of(uri: &http::Uri) -> String {
     format!(
         "{}://{}",
         uri.scheme_str().unwrap_or("").to_ascii_lowercase(),
-        uri.authority().map(|a| a.as_str().to_ascii_lowercase()).unwrap_or_default()
+        // user information does not select a different endpoint
+        uri.authority().map(|a| a.as_str().rsplit('@').next().unwrap_or("").to_ascii_lowercase()).unwrap_or_default()
     )
 }
 
